@@ -692,6 +692,54 @@ func (h *concHarness) Run(t *testing.T, ci any) *Outcome {
 	if res.Leaked > 0 {
 		return fail("goroutine-left", "%d goroutine(s) left after all clients returned:\n%s", res.Leaked, res.LeakDump)
 	}
+	// quiescent audit: all clients have returned. In every graph each indexed lookup and the existence test agree with
+	// the full listing (an index that lost or kept an entry during the concurrent history shows here), and the final
+	// listing enters the history as one more read, so that it must be the outcome of some linearization.
+	if st != nil {
+		byKey := map[string]*triple.Triple{}
+		for _, u := range uni {
+			byKey[tripleKey(u)] = u
+		}
+		stamp := int64(1 << 40)
+		for g, name := range c.Names {
+			gr, err := st.Graph(ctx, name)
+			if err != nil {
+				continue
+			}
+			lst := doLookup(ctx, gr, LookupCall{M: MTriples}, storage.DefaultLookup, 64)
+			var held []*triple.Triple
+			for _, k := range lst.Keys {
+				if tr := byKey[k]; tr != nil {
+					held = append(held, tr)
+				} else {
+					return fail("audit:foreign-triple", "graph %s lists %q, which was never added", name, k)
+				}
+			}
+			for ui, u := range c.U {
+				for m := 0; m < NumLookups; m++ {
+					lc := LookupCall{M: m, S: u[0], P: u[1], O: u[2]}
+					got := doLookup(ctx, gr, lc, storage.DefaultLookup, 64)
+					if want := refLookupKeys(held, lc, OptSpec{}); got.Err != nil || !equalStrings(sortedCopy(got.Keys), want) {
+						return fail("audit:index-inconsistent:"+lookupNames[m], "after all clients returned, in graph %s %s = %q err=%v but a scan of the listing gives %q\nlisting: %q", name, lc.String(), got.Keys, got.Err, want, lst.Keys)
+					}
+				}
+				ex, err := gr.Exist(ctx, uni[ui])
+				in := false
+				for _, tr := range held {
+					in = in || tripleKey(tr) == tripleKey(uni[ui])
+				}
+				if err != nil || ex != in {
+					return fail("audit:exist-inconsistent", "after all clients returned, in graph %s Exist(%s) = %v, %v but the listing says %v\nlisting: %q", name, uni[ui], ex, err, in, lst.Keys)
+				}
+			}
+			ev := &concEvent{client: len(c.Clients), desc: "audit: final listing of " + name, call: stamp, ret: stamp + 1, finished: true}
+			stamp += 2
+			ev.in = linIn{k: "lookup", name: g, byName: true, lc: &LookupCall{M: MTriples}}
+			ev.out.keys = strings.Join(sortedCopy(lst.Keys), "\n")
+			events = append(events, ev)
+			o.stat("audit_lookups", int64(len(c.U)*(NumLookups+1)+1))
+		}
+	}
 	// linearizability
 	var ops []porcupine.Operation
 	for _, ev := range events {
